@@ -28,7 +28,7 @@ def one(sid):
             res["error"] = "patch does not apply to current /repo HEAD: " + out[-300:]
             return res
         res["demo_patched_exit"] = sh("timeout 600 /venv/bin/python %s/demo.py" % d, cwd=wt, env=env)[0]
-        env2 = dict(os.environ, VERIF_REPO=wt, VERIF_JOBS="6")
+        env2 = dict(os.environ, VERIF_REPO=wt, VERIF_JOBS="6", VERIF_EVIDENCE_DIR=wt + "-evidence")
         rc, out = sh("timeout 3000 ./check %s quick" % prop, cwd="/verif", env=env2)
         res["check_exit"] = rc
         res["check_violation_lines"] = len(re.findall(r"^VIOLATION ", out, re.M))
@@ -39,6 +39,7 @@ def one(sid):
         res["summary_line"] = out.strip().split("\n")[-1][-300:]
     finally:
         sh("git -C /repo worktree remove --force %s" % wt)
+        shutil.rmtree(wt + "-evidence", ignore_errors=True)
     return res
 
 with ThreadPoolExecutor(max_workers=3) as ex:
